@@ -171,7 +171,7 @@ def _shard(ctx, shard, nshards):
 
     def factory():
         @seed(runner.hseed(ctx, 6))
-        @runner.hsettings(ctx.scale(4000, 40000))
+        @runner.hsettings(ctx.scale(4000, 120000))
         @given(tapes(200))
         def test(data):
             case = build_case(data, pats)
